@@ -7,14 +7,18 @@ TEXT = {
     "C03": dict(
         text="Theorems bridge_copies_exactly (for every chunking of the reads, including a last read that returns bytes together with "
              "end-of-stream, the relay writes exactly the bytes read, in order, and closes the destination iff the source ended), "
-             "bridge_prefix_while_open, witness of the variant that loses the final chunk, over a model of bridgeHalf. Tie: regenerated "
+             "bridge_prefix_while_open, witness of the variant that loses the final chunk, over a model of bridgeHalf; accept_exact and "
+             "stream_end_to_end (whatever the dialler wrote - nothing included - and however the stream chunks 0::d, the listener accepts "
+             "it and reads with buffers of any sizes return consecutive slices of d, the end only after all of d), relay_chain_exact (any "
+             "number of relays in a row), accepted_then_relayed, witness of the repaired empty-dial refusal, over a model of the two ends "
+             "of a stream (DialContext's zero byte, acceptLoop's one-byte read) on an assumed QUIC read contract. Tie: regenerated "
              "facts (relay loop order, BridgeConns, the initial byte of a stream and its acceptance with end-of-stream, Conn.Close is a "
              "half-close, ReadFrom copies the payload, the dial-cancel test of unreachable notices) + transfers on real meshes of 2..5 "
              "nodes over in-memory links that lose (up to 8 %), duplicate, delay and reorder datagrams, with a cut of the active path "
              "while a dearer one exists: both sides write their own sequence (0..200 kB, write sizes 1..70 kB), close their writing "
              "side and read to end-of-stream; directly and behind utils.BridgeConns + a Unix socket pair (one-way and duplex); plus "
              "the unreach engine (a notice cancels only the connection to exactly that remote service).",
-        note=BASE_NOTE + "Reliable ordered delivery is quic-go's (trusted, exercised); one defect repaired (empty dial refused), one "
+        note=BASE_NOTE + "Reliable ordered delivery is quic-go's (trusted, exercised); two defects repaired (empty dial refused; a reroute aborting the connection), one "
              "recorded (BridgeConns closes its destination completely: duplex transfers behind bridges are cut)."),
     "C04": dict(
         text="Theorems survives_crash_outside_rewrite_partial (every crash point after creation except between the truncation and the "
